@@ -566,9 +566,10 @@ func randomPair(c *kit.Ctx, ms []mutator, maxMut int) {
 	class := expSame
 	var names []string
 	differ := false
-	for tries, want := 0, r.Range(1, maxMut); len(names) < want && tries < 40; tries++ {
+	wantDiffer := r.Chance(2, 5)
+	for tries, want := 0, r.Range(1, maxMut); len(names) < want && tries < 60; tries++ {
 		m := kit.Pick(r, ms)
-		if m.class == expDiffer && differ {
+		if m.class == expDiffer && (differ || !wantDiffer) {
 			continue
 		}
 		if !m.apply(r, b, fresh) {
@@ -696,7 +697,7 @@ func runPairs(c *kit.Ctx) (int, int) {
 	ms := allMutators()
 	corpusPairs(c)
 	perMutatorPairs(c, ms)
-	nRand, maxMut := 1200, 3
+	nRand, maxMut := 900, 3
 	if c.Thorough() {
 		nRand, maxMut = 12000, 5
 	}
